@@ -37,14 +37,22 @@ def iflatten(iterable):
     # object per row before it - quadratic in the rows of a range, and deep enough to
     # crash the interpreter on a few hundred thousand of them
     stack = [iter(iterable)]
+    open_lists = [id(iterable)]
+    being_walked = set(open_lists)
     while stack:
         for item in stack[-1]:
             if isinstance(item, (list, tuple)):
+                if id(item) in being_walked:
+                    # a list that contains itself has no end
+                    raise ValueError('a list contains itself')
                 stack.append(iter(item))
+                open_lists.append(id(item))
+                being_walked.add(id(item))
                 break
             yield item
         else:
             stack.pop()
+            being_walked.discard(open_lists.pop())
 
 
 def flatten(l):
